@@ -492,6 +492,7 @@ func (handler *Handler) handleStatementExecute(ctx context.Context, packet *Pack
 		statement    sqlparser.Statement
 		stmtID       = binary.LittleEndian.Uint32(packet.GetData()[1:])
 		log          *logrus.Entry
+		typesKeeper  *MySQLPreparedStatement
 	)
 
 	// https://mariadb.com/kb/en/com_stmt_execute/#statement-id
@@ -533,15 +534,24 @@ func (handler *Handler) handleStatementExecute(ctx context.Context, packet *Pack
 		preparedStmt := stmtItem.Statement()
 		paramsNumber = preparedStmt.ParamsNum()
 		statement = preparedStmt.Query()
+		typesKeeper, _ = preparedStmt.(*MySQLPreparedStatement)
 	}
 
 	// https://dev.mysql.com/doc/dev/mysql-server/latest/page_protocol_com_stmt_execute.html
 	// we expect list of parameters if the paramsNum > 0
 	if paramsNum := paramsNumber; paramsNum > 0 {
-		parameters, err := packet.GetBindParameters(paramsNum)
+		// clients send the parameter types with the first execution of a statement only
+		var boundTypes []byte
+		if typesKeeper != nil {
+			boundTypes = typesKeeper.ParamTypes()
+		}
+		parameters, paramTypes, err := packet.GetBindParametersWithTypes(paramsNum, boundTypes)
 		if err != nil {
 			log.WithError(err).Error("Can't parse OnBind parameters")
 			return 0, err
+		}
+		if typesKeeper != nil {
+			typesKeeper.SetParamTypes(paramTypes)
 		}
 
 		newParameters, changed, err := handler.queryObserverManager.OnBind(ctx, statement, parameters)
@@ -558,7 +568,7 @@ func (handler *Handler) handleStatementExecute(ctx context.Context, packet *Pack
 
 		// Finally, if the parameter values have been changed, update the packet.
 		if changed {
-			if err := packet.SetParameters(newParameters); err != nil {
+			if err := packet.SetParametersWithTypes(newParameters, paramTypes); err != nil {
 				log.WithError(err).Error("Failed to update Bind packet")
 				return 0, err
 			}
